@@ -120,7 +120,13 @@ def cpp_twins(ctx):
         process, sensor = eh.make_noises(ctx.rng, d)
         pt = gen.gen_point(ctx.rng, d)
         m = gen.gen_renaming(ctx.rng, d)
+        k0 = sorted(d.sensors)[0]
+        while len(d.sensors[k0]) < 2:   # a sensor with two readings, so that declaration order of readings matters
+            d.sensors[k0][gen.fresh_names(ctx.rng, 1, {x.name for x in d.all_symbols()} | set(d.sensors[k0]))[0]] = d.state[0] * 2 + d.state[-1]
+        process, sensor = eh.make_noises(ctx.rng, d)
         d2 = d.renamed(m); d2._kind = "ekf"
+        gen.unsort_readings(d2)          # the twin also declares its readings in the opposite order
+        d.sensors = {k: {r: d.sensors[k][r] for r in sorted(d.sensors[k])} for k in sorted(d.sensors)}
         process2 = {m[k]: v for k, v in process.items()}
         pt2 = {"dt": pt["dt"], "state": {m[k]: v for k, v in pt["state"].items()}, "control": {m[k]: v for k, v in pt["control"].items()},
                "cal": {m[k]: v for k, v in pt["cal"].items()}}
